@@ -26,13 +26,16 @@ def oracle(case, out):
         t = l.split()
         reps = int(t[2]) if t[1] == "rep" else 1
         body = t[3:] if t[1] == "rep" else t[1:]
+        held = 0
+        if body[0] == "pre": held = int(body[1]); body = body[2:]
         if f.get("d") != "0":
             return "%s: the scratch arena is not at the position it had when the call began" % l
         nin = sum(len(x) // 2 for x in body if len(x) > 2 and all(c in "0123456789abcdef" for c in x))
         nout = len(f["res"]) // 2 if f["res"] not in ("-", "0", "1", "-1") else 0
         heap = sum(sizes(f.get("m")))
         strs = sum(sizes(f.get("s")))
-        bound = 64 * (nin + nout) + 4096
+        # a new arena node is sized by the arena's growth policy: twice the node the caller's own allocation filled
+        bound = 64 * (nin + nout) + 4096 + 2 * (held + 64)
         if heap > reps * bound:
             return "%s: %d bytes requested from the heap for the scratch arena; inputs %d + outputs %d bytes (bound %d per call)" % (l, heap, nin, nout, bound)
         if strs > bound:
@@ -84,6 +87,16 @@ def gen(ctx):
         cases.append(["cf up - 4 " + hx(CR.enc([0xDF] * k))])
         cases.append(["cf lo lt 4 " + hx(CR.enc([0xCC] * k))])
         cases.append(["cf cmp f - %s %s" % (hx(CR.enc([0xDF] * k)), hx(CR.enc([0x1E9E] * k)))])
+    # the caller holds scratch memory of its own: position inside a node, at the very end of an exactly filled node
+    # (a request above twice the node size gets a node of exactly its size), and just before it
+    for pre in (1, 100, 240, 256, 257, 600, 4096, 4080, 100000):
+        h = hx(CR.enc(rs(r.choice([3, 40, 300]), 0.5)))
+        cases.append(["cf pre %d up - 4 %s" % (pre, h)])
+        cases.append(["cf pre %d lo lt 4 %s" % (pre, h)])
+        cases.append(["cf pre %d slo 8 %s" % (pre, h)])
+        cases.append(["cf pre %d cmp f - %s %s" % (pre, h, hx(CR.enc(rs(20, 0.5))))])
+        cases.append(["cf pre %d sort fc - %s" % (pre, " ".join(hx(CR.enc(rs(9, 0.3))) for _ in range(7)))])
+        cases.append(["cf rep 50 pre %d up - 4 %s" % (pre, h)])
     for reps in (2, 10, 1000 if quick else 100000):
         cases.append(["cf rep %d up - 4 %s" % (reps, hx(CR.enc([0xDF, 0x61, 0xFB03] * 30)))])
         cases.append(["cf rep %d lo tr 4 %s" % (reps, hx(CR.enc([0x130, 0x49, 0x307] * 40)))])
